@@ -12,14 +12,17 @@ def ones_field(w):
 
 def sym_limiter(w):
     """an arbitrary limiter: uninterpreted psi in the symbolic world, a named one natively"""
+    names = ['CHARM', 'HQUICK', 'ospre', 'VanLeer', 'VanAlbada1', 'MinMod', 'SUPERBEE', 'Sweby', 'Osher',
+             'Koren', 'smart', 'MUSCL', 'QUICK', 'UMIST']
+    if getattr(w, 'choice_rng', None) is not None:
+        # conformance runs: the same named limiter traced through the model and run natively
+        return pf.fluxLimiter(names[w.choice_rng.randrange(len(names))])
     if w.symbolic:
         def FL(r):
             if isinstance(r, SymNDArray):
                 return npshim.elementwise(lambda x: R.fn('psi', R.of(x)), (r,), 'real')
             return R.fn('psi', R.of(r))
         return FL
-    names = ['CHARM', 'HQUICK', 'ospre', 'VanLeer', 'VanAlbada1', 'MinMod', 'SUPERBEE', 'Sweby', 'Osher',
-             'Koren', 'smart', 'MUSCL', 'QUICK', 'UMIST']
     return pf.fluxLimiter(names[w.rng.randrange(len(names))])
 
 
@@ -59,11 +62,16 @@ class MatrixStructure(Ob):
             return all(CTX.decide((I(P[a]) >= 1) & (I(P[a]) <= w.N[a])) for a in range(w.nd))
         return all(1 <= P[a] <= w.N[a] for a in range(w.nd))
 
-    def claims(self, w, S, P):
+    def parts(self, w):
+        return list(range(w.nd)) + ['sum']
+
+    def claims(self, w, S, P, part):
         out = []
-        interior = self._interior(w, P)
         nparts = len([k for k in S if k.startswith('M') and k != 'M'])
-        for a in range(nparts):
+        if part == 'sum':
+            return self._sum_claim(w, S, nparts)
+        interior = self._interior(w, P)
+        for a in [part]:
             row = w.row(S['M%d' % a], P)
             if not interior:
                 ok = all(self._is_zero(w, v) for c, v in row)
@@ -75,7 +83,10 @@ class MatrixStructure(Ob):
                     if not self._neighbour(w, P, c, ax):
                         ok = ok and self._is_zero(w, v)
                 out.append(('cols_are_axis_neighbours[%s]' % AX[a], w.true() if ok else self._false(w)))
-        # total = sum of parts
+        return out
+
+    def _sum_claim(self, w, S, nparts):
+        out = []
         if w.symbolic:
             fam_total = [id(f) for f in S['M'].families]
             fam_parts = [id(f) for a in range(nparts) for f in S['M%d' % a].families]
@@ -148,20 +159,23 @@ class VectorStructure(Ob):
             d['V%d' % a] = p
         return d
 
-    def claims(self, w, S, P):
+    def parts(self, w):
+        return list(range(w.nd)) + ['sum']
+
+    def claims(self, w, S, P, part):
         out = []
         nparts = len([k for k in S if k.startswith('V') and k != 'V'])
+        if part == 'sum':
+            tot = 0
+            for a in range(nparts):
+                tot = tot + w.vec(S['V%d' % a], P)
+            return [('total_is_sum_of_axis_parts', w.eq(w.vec(S['V'], P), tot))]
         if w.symbolic:
             interior = all(CTX.decide((I(P[a]) >= 1) & (I(P[a]) <= w.N[a])) for a in range(w.nd))
         else:
             interior = all(1 <= P[a] <= w.N[a] for a in range(w.nd))
-        tot = 0
-        for a in range(nparts):
-            v = w.vec(S['V%d' % a], P)
-            tot = tot + v
-            if not interior:
-                out.append(('zero_outside_interior[%s]' % AX[a], w.eq(v, 0)))
-        out.append(('total_is_sum_of_axis_parts', w.eq(w.vec(S['V'], P), tot)))
+        if not interior:
+            out.append(('zero_outside_interior[%s]' % AX[part], w.eq(w.vec(S['V%d' % part], P), 0)))
         return out
 
 
@@ -182,7 +196,7 @@ class TvdStructure(VectorStructure):
 # ------------------------------------------------------------------------------------------------
 #  constants                                                                              (C06)
 
-class DiffConstField(Ob):
+class DiffConstField(AxisOb):
     name = 'diffusionTerm/const_field'
     props = ('C06',)
 
@@ -190,12 +204,12 @@ class DiffConstField(Ob):
         M, ps = parts(builder(dif, 'diffusionTerm', w.grid)(w.facevar('D')))
         return dict(ps=ps, one=ones_field(w))
 
-    def claims(self, w, S, P):
-        return [('diffusion_of_constant_is_zero[%s]' % AX[a], w.eq(w.apply(Ma, S['one'], P), 0))
-                for a, Ma in enumerate(S['ps'])]
+    def claims(self, w, S, P, a):
+        Ma = S['ps'][a]
+        return [('diffusion_of_constant_is_zero[%s]' % AX[a], w.eq(w.apply(Ma, S['one'], P), 0))]
 
 
-class ConvConstField(Ob):
+class ConvConstField(AxisOb):
     name = 'convectionTerm/const_field'
     props = ('C06',)
 
@@ -205,12 +219,12 @@ class ConvConstField(Ob):
         d, ds = parts(builder(cal, 'divergenceTerm', w.grid)(u))
         return dict(ps=ps, ds=ds, one=ones_field(w))
 
-    def claims(self, w, S, P):
-        return [('central_of_constant_is_div_u[%s]' % AX[a], w.eq(w.apply(Ma, S['one'], P), w.vec(S['ds'][a], P)))
-                for a, Ma in enumerate(S['ps'])]
+    def claims(self, w, S, P, a):
+        Ma = S['ps'][a]
+        return [('central_of_constant_is_div_u[%s]' % AX[a], w.eq(w.apply(Ma, S['one'], P), w.vec(S['ds'][a], P)))]
 
 
-class UpwindConstField(Ob):
+class UpwindConstField(AxisOb):
     name = 'convectionUpwindTerm/const_field'
     props = ('C06',)
     with_upwind = False
@@ -222,9 +236,9 @@ class UpwindConstField(Ob):
         d, ds = parts(builder(cal, 'divergenceTerm', w.grid)(u))
         return dict(ps=ps, ds=ds, one=ones_field(w))
 
-    def claims(self, w, S, P):
-        return [('upwind_of_constant_is_div_u[%s]' % AX[a], w.eq(w.apply(Ma, S['one'], P), w.vec(S['ds'][a], P)))
-                for a, Ma in enumerate(S['ps'])]
+    def claims(self, w, S, P, a):
+        Ma = S['ps'][a]
+        return [('upwind_of_constant_is_div_u[%s]' % AX[a], w.eq(w.apply(Ma, S['one'], P), w.vec(S['ds'][a], P)))]
 
 
 class UpwindConstFieldUU(UpwindConstField):
@@ -232,7 +246,7 @@ class UpwindConstFieldUU(UpwindConstField):
     with_upwind = True
 
 
-class TvdConstField(Ob):
+class TvdConstField(AxisOb):
     name = 'convectionTvdRHS/const_field'
     props = ('C06',)
 
@@ -243,14 +257,15 @@ class TvdConstField(Ob):
         V, ps = parts(builder(adv, 'convectionTvdRHS', w.grid)(u, phi, sym_limiter(w)))
         return dict(ps=ps)
 
-    def claims(self, w, S, P):
-        return [('tvd_of_constant_is_zero[%s]' % AX[a], w.eq(w.vec(Va, P), 0)) for a, Va in enumerate(S['ps'])]
+    def claims(self, w, S, P, a):
+        Va = S['ps'][a]
+        return [('tvd_of_constant_is_zero[%s]' % AX[a], w.eq(w.vec(Va, P), 0))]
 
 
 # ------------------------------------------------------------------------------------------------
 #  implicit matrices = explicit chain                                                      (C05)
 
-class DiffEqualsChain(Ob):
+class DiffEqualsChain(AxisOb):
     name = 'diffusionTerm/equals_div_D_grad'
     props = ('C05',)
 
@@ -262,12 +277,12 @@ class DiffEqualsChain(Ob):
         d, ds = parts(builder(cal, 'divergenceTerm', w.grid)(D * g))
         return dict(ps=ps, ds=ds, phi=phi._value)
 
-    def claims(self, w, S, P):
-        return [('M_phi_is_div_D_grad_phi[%s]' % AX[a], w.eq(w.apply(Ma, S['phi'], P), w.vec(S['ds'][a], P)))
-                for a, Ma in enumerate(S['ps'])]
+    def claims(self, w, S, P, a):
+        Ma = S['ps'][a]
+        return [('M_phi_is_div_D_grad_phi[%s]' % AX[a], w.eq(w.apply(Ma, S['phi'], P), w.vec(S['ds'][a], P)))]
 
 
-class ConvEqualsChain(Ob):
+class ConvEqualsChain(AxisOb):
     name = 'convectionTerm/equals_div_u_linearMean'
     props = ('C05',)
 
@@ -278,12 +293,12 @@ class ConvEqualsChain(Ob):
         d, ds = parts(builder(cal, 'divergenceTerm', w.grid)(u * avg.linearMean(phi)))
         return dict(ps=ps, ds=ds, phi=phi._value)
 
-    def claims(self, w, S, P):
-        return [('M_phi_is_div_u_linearMean_phi[%s]' % AX[a], w.eq(w.apply(Ma, S['phi'], P), w.vec(S['ds'][a], P)))
-                for a, Ma in enumerate(S['ps'])]
+    def claims(self, w, S, P, a):
+        Ma = S['ps'][a]
+        return [('M_phi_is_div_u_linearMean_phi[%s]' % AX[a], w.eq(w.apply(Ma, S['phi'], P), w.vec(S['ds'][a], P)))]
 
 
-class UpwindEqualsChain(Ob):
+class UpwindEqualsChain(AxisOb):
     name = 'convectionUpwindTerm/equals_div_u_upwindMean'
     props = ('C05',)
     with_upwind = False
@@ -297,9 +312,9 @@ class UpwindEqualsChain(Ob):
         d, ds = parts(builder(cal, 'divergenceTerm', w.grid)(u * avg.upwindMean(phi, uu)))
         return dict(ps=ps, ds=ds, phi=phi._value)
 
-    def claims(self, w, S, P):
-        return [('M_phi_is_div_u_upwindMean_phi[%s]' % AX[a], w.eq(w.apply(Ma, S['phi'], P), w.vec(S['ds'][a], P)))
-                for a, Ma in enumerate(S['ps'])]
+    def claims(self, w, S, P, a):
+        Ma = S['ps'][a]
+        return [('M_phi_is_div_u_upwindMean_phi[%s]' % AX[a], w.eq(w.apply(Ma, S['phi'], P), w.vec(S['ds'][a], P)))]
 
 
 class UpwindEqualsChainUU(UpwindEqualsChain):
@@ -307,7 +322,7 @@ class UpwindEqualsChainUU(UpwindEqualsChain):
     with_upwind = True
 
 
-class TvdZeroLimiter(Ob):
+class TvdZeroLimiter(AxisOb):
     name = 'convectionTvdRHS/zero_limiter_zero'
     props = ('C05',)
 
@@ -315,8 +330,9 @@ class TvdZeroLimiter(Ob):
         V, ps = parts(builder(adv, 'convectionTvdRHS', w.grid)(w.facevar('u'), w.rawcell('phi'), (lambda r: 0.0)))
         return dict(ps=ps)
 
-    def claims(self, w, S, P):
-        return [('tvd_zero_limiter[%s]' % AX[a], w.eq(w.vec(Va, P), 0)) for a, Va in enumerate(S['ps'])]
+    def claims(self, w, S, P, a):
+        Va = S['ps'][a]
+        return [('tvd_zero_limiter[%s]' % AX[a], w.eq(w.vec(Va, P), 0))]
 
 
 from fvverif import trace as T   # noqa: E402
